@@ -33,3 +33,141 @@ def check_C17(tier):
     res.assumptions = ["a data-shape specification (no transition system): TLC enumerates and checks the abstract round-trip laws, the harness "
                        "binds them to the real Serialize/Deserialize code"]
     return res.finish()
+
+
+IDL_BUGS_OFF = {"BugTrailingHyphenFirst": False, "BugNoDupCheckAcrossKinds": False}
+
+
+def idl_names(res, maxlen, tag="names"):
+    cfg = write_cfg(os.path.join(res.wd, "MC_IdlNames.cfg"), constants=dict(IDL_BUGS_OFF, MaxLen=maxlen, Emit=True),
+                    invariants=["AcceptSane", "EmitCase"])
+    r = run_tlc("MC_IdlNames", cfg, res.wd, workers=8, tag="idl-" + tag, timeout=1800)
+    res.add_tlc(r)
+    if r.violation:
+        res.tlc_violation(r, "MC_IdlNames")
+    return r.replay
+
+
+def idl_tokens(res, baseset="full", tag="tokens"):
+    cfg = write_cfg(os.path.join(res.wd, "MC_IdlTokens_%s.cfg" % tag), constants=dict(IDL_BUGS_OFF, Emit=True, BaseSet=baseset),
+                    invariants=["BasesAccepted", "EmitCase"])
+    r = run_tlc("MC_IdlTokens", cfg, res.wd, workers=8, tag="idl-" + tag, timeout=1800)
+    res.add_tlc(r)
+    if r.violation:
+        res.tlc_violation(r, "MC_IdlTokens")
+    return r.replay
+
+
+def idl_asts(res, mode, depth, maxmembers, tag=None):
+    tag = tag or mode
+    cfg = write_cfg(os.path.join(res.wd, "MC_IdlAst_%s.cfg" % tag),
+                    constants=dict(IDL_BUGS_OFF, Mode=mode, TypeDepth=depth, MaxMembers=maxmembers, Emit=True),
+                    invariants=["TypesAllOk", "EmitCase"])
+    r = run_tlc("MC_IdlAst", cfg, res.wd, workers=8, tag="idl-ast-" + tag, timeout=1800)
+    res.add_tlc(r)
+    if r.violation:
+        res.tlc_violation(r, "MC_IdlAst " + tag)
+    return r.replay
+
+
+def check_C11(tier):
+    res = Result("C11", tier, "model_checking")
+    vh = build_harness()
+    thorough = tier == "thorough"
+    # (1) interface names: all strings over the character classes
+    names = idl_names(res, 8 if thorough else 6)
+    fails, summ, _ = run_vh_parallel(vh, ["idlnames"], names)
+    res.add_failures(fails, "names")
+    res.traces += summ["executions"]
+    res.evaluations += summ["executions"]
+    res.extra["names"] = len(names)
+    res.extra["names_dontcare"] = summ.get("dontcare", 0)
+    # (2) token strings with an error budget of one
+    toks = idl_tokens(res)
+    fails, summ, _ = run_vh_parallel(vh, ["idltok", "--tier=" + tier], toks)
+    res.add_failures(fails, "tokens")
+    res.traces += summ["executions"]
+    res.evaluations += summ["executions"]
+    res.extra["token_strings"] = len(toks)
+    res.extra["token_strings_accepted"] = len([t for t in toks if t["accept"]])
+    # (3) duplicates and (4) mirror
+    asts = idl_asts(res, "dups", 1, 3) + idl_asts(res, "types", 3 if thorough else 2, 3) + idl_asts(res, "shapes", 1, 3 if not thorough else 4)
+    fails, summ, _ = run_vh_parallel(vh, ["idlast", "--tier=" + tier], asts)
+    res.add_failures(fails, "mirror")
+    res.traces += summ["executions"]
+    res.evaluations += summ["executions"]
+    res.nontrivial_count = len(toks) + len([n for n in names if n["v"] == "accept"]) + len(asts)
+    res.sample({"name_classes": "".join(names[777]["s"]), "verdict": names[777]["v"]})
+    res.sample(toks[len(toks) // 3])
+    res.sample({"ast_members": [[m["k"], m["n"]] for m in asts[5]["ast"]["members"]], "dups": asts[5]["dups"]})
+    res.rule = ("Idl.tla: (1) every string over 6 character classes up to length 6/8 judged by the name rules; (2) 7 base sentences x "
+                "{every prefix, token deletion, insertion of each of 22 tokens, substitution, adjacent swap} judged by the recursive "
+                "recogniser, rendered with 6/28 trivia styles (blanks, CRLF / CR / U+2028, comment lines); (3) all 2..3-member "
+                "sequences over {method,type,error} x 2 names for duplicates; (4) ASTs (type pool depth 2/3 in every position, member "
+                "sequences with doc tags) for the mirror; non-trivial = token strings + accepted names + ASTs")
+    res.exhaustive = True
+    res.assumptions = ["don't-care (not generated): upper-case inside the first name element, blanks before a comma, a comment on the same line "
+                       "after blanks, trivia inside [] / [string], comment without final line break at end of input"]
+    return res.finish()
+
+
+def check_C12(tier):
+    res = Result("C12", tier, "exploration")
+    vh = build_harness()
+    thorough = tier == "thorough"
+    # model-directed inputs (with accept/reject oracle): prefixes and one-error strings in every line-ending convention
+    toks = idl_tokens(res)
+    fails, summ, _ = run_vh_parallel(vh, ["idltok", "--tier=thorough"], toks)
+    res.add_failures(fails, "tokens-all-styles")
+    res.evaluations += summ["executions"]
+    names = idl_names(res, 5)
+    fails, summ, _ = run_vh_parallel(vh, ["idlnames"], names)
+    res.add_failures(fails, "names")
+    res.evaluations += summ["executions"]
+    # totality: random Unicode, byte-level mutations of valid definitions, every prefix, nesting up to 200, junk in comments
+    asts = idl_asts(res, "types", 2, 3)[::3]
+    fails, summ, _ = run_vh_parallel(vh, ["idlfuzz", "--tier=" + tier], asts, timeout=3000)
+    res.add_failures(fails, "fuzz")
+    res.evaluations += summ["executions"]
+    res.extra["fuzz_inputs"] = summ["executions"]
+    res.extra["fuzz_rejected_with_diagnostic"] = summ.get("rejected", 0)
+    res.nontrivial_count = summ.get("distinct", 0) + len(toks)
+    res.traces = 0
+    res.sample({"tokens": toks[100]["toks"], "accept": toks[100]["accept"]})
+    res.rule = ("inputs come from the model (every prefix and every one-token error of the base sentences in 28 trivia / line-ending styles; "
+                "name strings) and from operators on model-generated valid definitions (every character prefix, byte mutations, random Unicode "
+                "of all planes placed inside comments and anywhere, nesting depth 1..200, CR / CRLF / U+2028 / U+2029 line ends); oracle: no "
+                "panic, termination within a watchdog, reported line is a line of the input, column within it, Display works; non-trivial = "
+                "distinct inputs")
+    res.assumptions = ["the totality verdict needs no model; the model supplies structured inputs and the accept/reject oracle where it has one"]
+    return res.finish()
+
+
+def check_C10(tier):
+    res = Result("C10", tier, "model_checking")
+    vh = build_harness()
+    bins = build_repo_bins(["varlink-cli"])
+    thorough = tier == "thorough"
+    asts = idl_asts(res, "types", 3 if thorough else 2, 3) + idl_asts(res, "shapes", 1, 3 if not thorough else 4)
+    if not thorough:
+        asts = asts[:165] + asts[165::4]
+    fails, summ, _ = run_vh_parallel(vh, ["idlast", "--format", "--tier=" + tier], asts, n=12, timeout=3000,
+                                     env={"VERIF_VARLINK_BIN": os.path.join(bins, "varlink")})
+    res.add_failures(fails, "format")
+    res.traces += summ["executions"]
+    res.evaluations += summ["executions"]
+    # the command-line tool on a sample
+    fails, summ, _ = run_vh_parallel(vh, ["idlcli"], asts[::(7 if thorough else 40)], n=8, timeout=3000,
+                                     env={"VERIF_VARLINK_BIN": os.path.join(bins, "varlink")})
+    res.add_failures(fails, "format-cli")
+    res.traces += summ["executions"]
+    res.evaluations += summ["executions"]
+    res.nontrivial = {json.dumps(a["ast"], sort_keys=True) for a in asts}
+    res.sample({"members": [[m["k"], m["n"], m["doc"]] for m in asts[200 % len(asts)]["ast"]["members"]]})
+    res.rule = ("ASTs enumerated by MC_IdlAst (type pool to depth 2/3 in every parameter position; all member-template sequences up to 3/4 with "
+                "doc tags none/one line/several lines/CRLF/tab continuation/U+2028), rendered with trivia styles; for each, all widths 0..200, "
+                "1000 and usize::MAX/2: parse(format) projects to the spec AST, format(parse(format)) is byte-identical, coloured output "
+                "minus escapes equals plain, Display = width 80; `varlink format -c w` on a sample; non-trivial = distinct ASTs")
+    res.exhaustive = True
+    res.assumptions = ["member order is the per-kind order the parser exposes (typedefs, methods, errors)"]
+    return res.finish()
